@@ -105,6 +105,7 @@ def inject(scratch_repo, modules, known_ids, intree_macros=False, grammar_deviat
     from . import dslgen
     try:
         doc, dinfo = dslgen.every_element_document(dslgen.dsl_body(open(os.path.join(src, "specification_orig.rs")).read()))
+        doc_ifd, _ = dslgen.every_element_document(dslgen.dsl_body(open(os.path.join(src, "specification_orig.rs")).read()), repeat=2, ifdata_mix=True)
         doc_x2, _ = dslgen.every_element_document(dslgen.dsl_body(open(os.path.join(src, "specification_orig.rs")).read()), repeat=2)
         doc_st, _ = dslgen.every_element_document(dslgen.dsl_body(open(os.path.join(src, "specification_orig.rs")).read()), stagger=True)
         fpmod, finfo = dslgen.fingerprint_module(open(os.path.join(src, "specification.rs")).read())
@@ -114,6 +115,7 @@ def inject(scratch_repo, modules, known_ids, intree_macros=False, grammar_deviat
         doc = "ASAP2_VERSION 1 71\n/begin PROJECT p \"\"\n/end PROJECT\n"
         doc_st = doc
         doc_x2 = doc
+        doc_ifd = doc
         fpmod = "use crate::specification::*;\npub(crate) fn fingerprint(_file: &A2lFile) -> Vec<u8> { Vec::new() }\npub(crate) const VERIF_FP_STUB: bool = true;\n"
         pre.append("dslgen failed (%s): stub every-element document and fingerprint module" % str(e)[:200])
     # C04: single deviations from the frozen reference grammar (only built when a property asks for them: large)
@@ -139,6 +141,7 @@ def inject(scratch_repo, modules, known_ids, intree_macros=False, grammar_deviat
     open(os.path.join(src, "verif_every_element.txt"), "w").write(doc)
     open(os.path.join(src, "verif_every_element_staggered.txt"), "w").write(doc_st)
     open(os.path.join(src, "verif_every_element_x2.txt"), "w").write(doc_x2)
+    open(os.path.join(src, "verif_every_element_ifdata.txt"), "w").write(doc_ifd)
     open(os.path.join(src, "verif_fp.rs"), "w").write(fpmod)
     rt = open(os.path.join(C.VERIF, "harness", "verif_rt.rs")).read()
     rt += "\nstatic VRT_KNOWN: &[&str] = &[%s];\n" % ", ".join('"%s"' % k for k in known_ids)
